@@ -425,6 +425,22 @@ static std::string step(const std::vector<std::string> &w)
     *sc << p;
     return afterBw(old);
   }
+  if (op == "wvc") {
+    // a std::vector<const char *>: every element goes through operator<<(const char *) (length + characters), like a
+    // vector of strings - not as the raw pointer values
+    std::vector<std::string> strs;
+    for (size_t i = 1; i < w.size(); ++i) {
+      std::string t;
+      if (w[i] != "-") { std::string tok = "s" + w[i]; Cur c{tok, 0}; Codec<std::string>::parseInto(c, t); }
+      strs.push_back(t);
+    }
+    std::vector<const char *> v;
+    for (auto &t : strs) v.push_back(t.c_str());
+    size_t old = bw->buffer->size();
+    *bw << v;
+    *sc << v;
+    return afterBw(old);
+  }
   if (op == "dump") return afterBw(0);
   if (op == "bw_rewind") {
     // the writer is rewound between messages: its array is resized to 0 and written again
